@@ -99,9 +99,24 @@ def permitted_out_edges(F, n):
 
 
 def has_room_for(F, e, n):
-    """room on e counting every granted space token except the node's own ones"""
+    """room on e counting every granted space token except the node's own ones (conveyors: plus the documented admission rules)"""
     g = sum(1 for t in F.standing(e, "put") if t.granted and t.node is not n)
-    return F.occupancy(e) + g < e.capacity
+    if not (F.occupancy(e) + g < e.capacity):
+        return False
+    if e.__class__.__name__ == "ConveyorBelt":
+        if g:
+            return False          # one item enters at a time
+        spacing = (e.length / e.speed) if hasattr(e, "speed") else e.delay
+        last = None
+        for ev in reversed(F.events):
+            if ev[0] == "put" and ev[2] is e:
+                last = ev[1]
+                break
+        if last is not None and not (F.env.now - last >= spacing + 2e-5):
+            return False          # the previous item has not cleared the entry yet
+        if not e.accumulating and F.store_of(e).ready_items:
+            return False          # a non-accumulating belt is stopped while its head waits
+    return True
 
 
 def on_put_record_out(F):
@@ -541,7 +556,16 @@ def fan(props=("C03", "C08", "C10"), n_src=2, n_out=1, n_items=2, w=1, blocking=
             k = F.add_node(Sink(env, f"K{j}"))
             sinks.append(k)
             e = _edge(F, out_kind, f"OUT{j}", out_cap, od, **ckw)
-            e.connect(m, k)
+            if second_machine and j == 0:
+                # a second machine behind the first out-edge: M -> OUT0 -> M2 -> TAIL -> K0
+                pd2 = ctx.real("pd2", 0, 4)
+                m2 = F.add_node(Machine(env, "M2", work_capacity=1, processing_delay=F.delay_source("M2", [pd2] * (tot + 2), delay_kind, after=1),
+                                        blocking=True, in_edge_selection=0, out_edge_selection=0))
+                e.connect(m, m2)
+                tail = _edge(F, "buffer", "TAIL", 1, 0)
+                tail.connect(m2, k)
+            else:
+                e.connect(m, k)
         install(F)
         Tend = until
         if until == "sym":
